@@ -18,7 +18,7 @@ run_one() { # $1 = label, $2 = patch file, $3 = -R or empty
   git -C $wt checkout -q -- . ; git -C $wt clean -fdq
   if ! git -C $wt apply $3 $2 2>/dev/null; then return; fi   # patch no longer applies to HEAD: skipped
   for f in $(cd /repo && ls */zz_contracts_verif.go */*/zz_contracts_verif.go 2>/dev/null); do cp /repo/$f $wt/$f; done
-  n=$(GVC_SURVEY=1 GVC_EVIDENCE_DIR=/tmp/selftest_ev.$$ bin/gvc check -prop $id -tier quick -repo $wt 2>&1 | grep -c '^VIOLATION')
+  n=$(GVC_EVIDENCE_DIR=/tmp/selftest_ev.$$ bin/gvc check -prop $id -tier quick -repo $wt 2>&1 | grep -c '^VIOLATION')
   if [ "$n" -gt 0 ]; then caught+=("$1"); else missed+=("$1"); fi
 }
 while read pat rev checks; do
